@@ -301,6 +301,16 @@ def engine_cases(ctx) -> list[dict]:
                     add(kind="policy", policy="random", spec=spec, name=f"trans_{variant}", max_steps=steps, c14=meta)
                 if thorough or k in (1, limit + 1):
                     add(kind="policy", policy="redeliver", spec=spec, name=f"trans_{variant}", max_steps=steps, c14=meta)
+    # a crash after every commit of the FIFO run of a task that saves progress with its transient failures, then restart,
+    # recovery sweep and drain: a retry that was scheduled must find the progress saved with it (monitor M3c)
+    for (k, variant, nt, pos, surround) in ([(2, "ctx", 1, 0, False), (3, "mixed", 2, 1, True)] if not thorough else
+                                            [(2, "ctx", 1, 0, False), (3, "mixed", 2, 1, True), (4, "ctx", 3, 1, True), (2, "run", 2, 0, False)]):
+        spec = make_spec(k, variant, nt, pos, surround)
+        meta = {"k": k, "variant": variant, "ntasks": nt, "pos": pos, "surround": surround, "crash": True}
+        for at in range(0, 14 + 5 * k + 4 * nt + (8 if surround else 0)):
+            add(kind="crash", at=at, spec=spec, name=f"trans_{variant}_crash", drain="fifo", max_steps=60 + 3 * k, c14=meta)
+            if thorough:
+                add(kind="crash", at=at, spec=spec, name=f"trans_{variant}_crash", drain="random", max_steps=60 + 3 * k, c14=meta)
     # redelivery of the SAME RunTask row: B, StartWorkflow(1), StartStage(2), StartTask(3) -> RunTask is row 4
     warm = [["B"], ["D", 1, True], ["D", 2, True], ["D", 3, True]]
     for variant in ("plain", "ctx", "run"):
@@ -405,6 +415,42 @@ def monitor(out) -> list[Violation]:
                      f"(context_update of a TransientError / context of a RUNNING result)",
                 signature="progress-lost", replay=_replay(out, {"ledger_entry": e, "expected_ctx": want})))
             break
+    # -- M3c (any run, crashes included): an execution delivered through a queue row that an EARLIER execution of the same
+    #    task created while handling its transient failure / RUNNING poll (the scheduled retry) sees the progress that
+    #    execution attached: the retry message and the saved progress are one commit, so the one never exists without the other
+    lm, qm = out.get("ledger_marks") or [], out.get("queue_marks") or []
+    if lm and qm and len(lm) == len(out["actions"]) == len(qm):
+        def action_of(li):
+            return next((a for a, m in enumerate(lm) if m > li), None)
+        full = out["ledger"]
+        for li, e in enumerate(full):
+            if e["ref"] != fref or e["task"] != pos:
+                continue
+            a_e = action_of(li)
+            if a_e is None or out["actions"][a_e][0] not in ("D", "X"):
+                continue
+            rid = out["actions"][a_e][1]
+            born = next((a for a, m in enumerate(qm) if m >= rid), None)      # the action that allocated this row id
+            if born is None or born >= a_e:
+                continue
+            lo = lm[born - 1] if born > 0 else 0
+            makers = [m for m in full[lo:lm[born]] if m["ref"] == fref and m["task"] == pos]
+            for mk in makers:
+                kind, _, arg = mk["step"].partition(":")
+                if kind not in ("trans", "run") or not arg:
+                    continue
+                want = {kk: int(v) for kk, _, v in (p.partition("=") for p in arg.split(","))}
+                lost = {kk: v for kk, v in want.items() if not (isinstance(e["ctx"].get(kk), int) and e["ctx"][kk] >= v)}
+                if lost:
+                    vs.append(Violation(
+                        what=f"execution #{e['n']} of the task was delivered through queue row {rid}, the retry scheduled by execution "
+                             f"#{mk['n']} (which attached {want}), but ran with context {({kk: e['ctx'].get(kk) for kk in want})}: the retry message "
+                             f"became durable without the progress saved with it ({crashes} crash(es) in this run)",
+                        signature="progress-lost:retry-without-progress",
+                        replay=_replay(out, {"ledger_entry": e, "maker": mk, "row": rid})))
+                    break
+            if vs and vs[-1].signature == "progress-lost:retry-without-progress":
+                break
     # -- M4: the other tasks of the stage run once (a retry of one task never re-runs its neighbours)
     if crashes == 0:
         cnt: dict = {}
